@@ -3511,6 +3511,7 @@ public:
     template<typename T = void, typename = enable_if_writable_t<Byte, T>>
     SBEPP_CPP20_CONSTEXPR void push_back(value_type value) const noexcept
     {
+        SBEPP_ASSERT(can_grow_by(1));
         const auto current_size = size();
         resize(current_size + 1, default_init);
         (*this)[current_size] = value;
@@ -3551,6 +3552,7 @@ public:
         insert(iterator pos, const value_type value) const noexcept
     {
         SBEPP_ASSERT(pos >= begin() && pos <= end());
+        SBEPP_ASSERT(can_grow_by(1));
         const auto old_end = end();
         resize(size() + 1, default_init);
         std::copy_backward(pos, old_end, end());
@@ -3564,6 +3566,7 @@ public:
         iterator pos, size_type count, const value_type value) const noexcept
     {
         SBEPP_ASSERT(pos >= begin() && pos <= end());
+        SBEPP_ASSERT(can_grow_by(count));
         const auto old_end = end();
         resize(size() + count, default_init);
         std::copy_backward(pos, old_end, end());
@@ -3613,6 +3616,7 @@ public:
     {
         auto begin = data_unchecked();
         const auto new_end = std::copy(first, last, begin);
+        SBEPP_ASSERT(fits_size_type(new_end - begin));
         resize(new_end - begin, default_init);
     }
 
@@ -3660,6 +3664,7 @@ public:
     {
         SBEPP_ASSERT(str != nullptr);
         const auto length = string_length(str);
+        SBEPP_ASSERT(fits_size_type(length));
         resize(length, default_init);
         std::copy_n(str, length, begin());
     }
@@ -3683,10 +3688,33 @@ public:
 #else
         const auto new_end = std::copy(std::begin(r), std::end(r), begin);
 #endif
+        SBEPP_ASSERT(fits_size_type(new_end - begin));
         resize(new_end - begin, default_init);
     }
 
 private:
+    // whether `count` is representable by `size_type` (the new size is stored
+    // through it, a larger one would be silently truncated)
+    template<typename Count>
+    static constexpr bool fits_size_type(const Count count) noexcept
+    {
+        return (count >= 0)
+               && (static_cast<std::uintmax_t>(count)
+                   <= static_cast<std::uintmax_t>(
+                       std::numeric_limits<size_type>::max()));
+    }
+
+    // whether `size() + count` is representable by `size_type`
+    template<typename Count>
+    SBEPP_CPP20_CONSTEXPR bool can_grow_by(const Count count) const noexcept
+    {
+        return fits_size_type(count)
+               && (static_cast<std::uintmax_t>(count)
+                   <= static_cast<std::uintmax_t>(
+                          std::numeric_limits<size_type>::max())
+                          - static_cast<std::uintmax_t>(size()));
+    }
+
     SBEPP_CPP14_CONSTEXPR pointer data_checked() const noexcept
     {
         SBEPP_SIZE_CHECK(
@@ -3732,6 +3760,7 @@ private:
         iterator pos, It first, It last, std::forward_iterator_tag) const
     {
         const auto in_size = std::distance(first, last);
+        SBEPP_ASSERT(in_size >= 0 && can_grow_by(in_size));
         auto old_end = end();
         resize(size() + in_size, default_init);
         std::copy_backward(pos, old_end, end());
